@@ -8,7 +8,7 @@ import extract
 from lib import hx
 
 EXTRACT = ['versions', 'poslayout', 'gen.c04codec']
-EXTRA_PROPS = ['C04Codec']
+EXTRA_PROPS = ['C04Codec', 'C04Wrap']
 
 RULE = ("all 369 known versions x full product of per-axis boundary values (6x5x6 = 180 triples) x "
         "encode+decode; every single-bit and sign-boundary 64-bit word decoded under every version; "
@@ -197,6 +197,36 @@ def run(ctx):
                 ctx.violation('word %s under protocol %d decodes wrongly' % (w.hex(), v),
                               {'version': v, 'word': w.hex(), 'impl': got},
                               key={'version': v, 'word': w.hex()})
+    # ---- coordinates OUTSIDE the signed ranges (Props/C04Wrap: mask on send, sign-extend on read, so
+    # the value read back is the coordinate wrapped into its range).  The property speaks about
+    # in-range positions only, so this comparison is RECORDED in the evidence and never judged: a
+    # range check added to Position.send is not an alarm.
+    def wrapk(v, k):
+        return (v + 2 ** (k - 1)) % 2 ** k - 2 ** (k - 1)
+    WX = [2 ** 25, 2 ** 25 + 1, -2 ** 25 - 1, 2 ** 26, -2 ** 26, 2 ** 26 + 5, 2 ** 40 + 3, -2 ** 63, 7]
+    WY = [2 ** 11, -2 ** 11 - 1, 2 ** 12, 2 ** 12 + 9, -2 ** 30, 5]
+    wild = [t for t in itertools.product(WX, WY, WX)
+            if not (-2 ** 25 <= t[0] < 2 ** 25 and -2 ** 11 <= t[1] < 2 ** 11 and -2 ** 25 <= t[2] < 2 ** 25)]
+    wild += [(rng.randrange(-2 ** 70, 2 ** 70), rng.randrange(-2 ** 20, 2 ** 20), rng.randrange(-2 ** 70, 2 ** 70))
+             for _ in range(ctx.scale(60, 600))]
+    for nf in (0, 1):
+        v = next((u for u in known if table[u] == nf), None)
+        if v is None:
+            continue
+        c = ConnectionContext(protocol_version=v)
+        outs = ctx.driver.ask(['pos.enc %d %d %d %d' % ((nf,) + t) for t in wild])
+        for t, mo in zip(wild, outs):
+            s = Sink()
+            try:
+                Position.send_with_context(Position(*t), s, c)
+                got = 'ok ' + hx(s.b)
+                p = Position.read_with_context(io.BytesIO(bytes(s.b)), c)
+                back = (p.x, p.y, p.z)
+            except Exception as e:
+                got, back = 'err:' + ename(e), None
+            ctx.count('pos.wild.' + got.split()[0])
+            if got != mo or back != (wrapk(t[0], 26), wrapk(t[1], 12), wrapk(t[2], 26)):
+                ctx.count('pos.wild.differs-from-model(recorded, not judged)')
     # ---- ONE long-lived context whose protocol_version is reassigned (what Connection.connect() does
     # after negotiation and on every reconnect): the layout must follow the CURRENT version
     walk = [404, 477, 404, 757, 340, 498, 47, 443, 442, 443, 757, 404]
